@@ -31,16 +31,20 @@ theorem qualifierFmt_readValue (a b : Registry) (h : sameText a b) (pre n v : By
   rw [qualifierText_readValue]
 
 /-- one feature: the re-read feature is written, under a registry that writes the same text, as the
-feature was -/
+feature was — when the written items of one name are consecutive (`propsAdjacent`; `Props.Add`
+gathers the rows of one name, so any other order would come back re-ordered) -/
 theorem featureText_readFeature (a b : Registry) (h : sameText a b) (depth : Nat) (f : QFeature)
-    (hd : propsDistinct f.props = true) :
+    (hd : propsAdjacent f.props = true) :
     featureText b depth (readFeature a f) = featureText a depth f := by
-  have hok : propsOk f.props = true := by
-    simp only [propsDistinct, Bool.and_eq_true] at hd; exact hd.1
-  rw [readFeature_props a f hd]
-  have hok' := propsNorm_ok _ (readProps_norm a f.props hd)
-  simp only [featureText, hok, hok', Bool.not_true, Bool.false_eq_true, if_false]
-  rw [propsItems_readProps a f.props hd]
+  simp only [propsAdjacent, Bool.and_eq_true] at hd
+  obtain ⟨hok, hg⟩ := hd
+  have hok' : propsOk (readFeature a f).props = true := propsNorm_ok _ (propsOfItems_norm _)
+  have hkeys : (readItems a f.props).map (·.1) = (propsItems f.props).map (·.1) := by
+    simp [readItems, List.map_map, Function.comp_def]
+  have hitems : propsItems (readFeature a f).props = readItems a f.props :=
+    propsItems_propsOfItems _ (by rw [hkeys]; exact hg)
+  simp only [featureText, hok, hok', Bool.not_true, Bool.false_eq_true, if_false, hitems]
+  simp only [readFeature]
   unfold readItems
   rw [List.flatMap_map]
   congr 3
@@ -54,7 +58,7 @@ theorem tableDepth_readFeature (a : Registry) (fs : List QFeature) :
   rfl
 
 theorem tableTextD_readFeature (a b : Registry) (h : sameText a b) (depth : Nat) (fs : List QFeature)
-    (hd : ∀ f ∈ fs, propsDistinct f.props = true) :
+    (hd : ∀ f ∈ fs, propsAdjacent f.props = true) :
     tableTextD b depth (fs.map (readFeature a)) = tableTextD a depth fs := by
   induction fs with
   | nil => rfl
@@ -70,7 +74,7 @@ theorem tableTextD_readFeature (a b : Registry) (h : sameText a b) (depth : Nat)
 /-- **FEATURES, fixed point**: the table that was read back, written under a registry that writes
 the same text (`learnTable reg table` is one), gives the text that was read -/
 theorem tableText_readFeature (a b : Registry) (h : sameText a b) (fs : List QFeature)
-    (hd : ∀ f ∈ fs, propsDistinct f.props = true) :
+    (hd : ∀ f ∈ fs, propsAdjacent f.props = true) :
     tableText b (fs.map (readFeature a)) = tableText a fs := by
   unfold tableText
   rw [tableDepth_readFeature, tableTextD_readFeature a b h _ fs hd]
@@ -96,6 +100,14 @@ theorem headerText_readBack (f : Fields) (L : Int) :
 
 /-- the distinct-names clause for a table -/
 def tableDistinct (fs : List QFeature) : Bool := fs.all fun f => propsDistinct f.props
+
+/-- the adjacent-names clause for a table: in every feature the written qualifiers of one name are
+consecutive -/
+def tableAdjacent (fs : List QFeature) : Bool := fs.all fun f => propsAdjacent f.props
+
+theorem tableAdjacent_of_distinct (fs : List QFeature) (h : tableDistinct fs = true) : tableAdjacent fs = true := by
+  simp only [tableDistinct, tableAdjacent, List.all_eq_true] at h ⊢
+  exact fun f hf => propsAdjacent_of_distinct _ (h f hf)
 
 theorem origin_readBack (p : Bytes) (hlen : p.length < 10 ^ 9) :
     (OriginV.len (if p.isEmpty then .buffer [] else .buffer (Origin.originStream p)) = (p.length : Int)) ∧
@@ -123,12 +135,12 @@ theorem write_congr (a b : Registry) (r r' : Record)
   · simp only [hpos, if_false]
 
 /-- **write (readBack r) = write r** for every record whose residues are `p` (fewer than 10^9)
-and whose `Props` have distinct row names, under every registry that writes the same text. -/
+and whose written qualifiers of one name are consecutive in every feature, under every registry that writes the same text. -/
 theorem write_readBack (a b : Registry) (h : sameText a b) (r : Record) (p : Bytes)
-    (ho : r.origin = .residues p) (hlen : p.length < 10 ^ 9) (hd : tableDistinct r.table = true) :
+    (ho : r.origin = .residues p) (hlen : p.length < 10 ^ 9) (hd : tableAdjacent r.table = true) :
     write b (readBack a r p) = write a r := by
-  have hd' : ∀ x ∈ r.table, propsDistinct x.props = true := by
-    simpa [tableDistinct, List.all_eq_true] using hd
+  have hd' : ∀ x ∈ r.table, propsAdjacent x.props = true := by
+    simpa [tableAdjacent, List.all_eq_true] using hd
   obtain ⟨hol, hot⟩ := origin_readBack p hlen
   apply write_congr
   · rw [ho]; exact hol
